@@ -59,6 +59,21 @@ impl Prop for C06 {
     }
     fn make(&self, seed: u64, run: u64, tier: Tier) -> Case {
         let mut rng = Rng::derive(seed, "C06", run, "gen");
+        if run == 1 || run == 2 || (run > 2 && run % 97 == 0) {
+            // chunk-counter coverage: archives of several hundred chunks (every run of this kind) and, for run 1,
+            // of more than 65536 chunks on s0 (32-byte chunks), so that every byte of the big-endian counter moves
+            let variant = if run % 2 == 1 { "s0" } else { "s1" };
+            let vc = consts_of(variant);
+            let chunks = if run == 1 { 66_000 } else { rng.range(260, 700) as usize };
+            let layers = if run == 1 || rng.chance(2, 3) { L_ENC } else { L_ENC | L_COMP };
+            let cfg = ArcCfg { variant: variant.into(), layers, level: 1, recipients: 1, reader: 0, rng_seed: run + 77, key_seed: run + 5 };
+            let n = chunks * vc.chunk as usize + rng.usize_below(vc.chunk as usize);
+            let ops = vec![WOp::Add { name: Name::lit("big"), data: Data::Rand { n, seed: run }, src: Src::exact() }, WOp::Add { name: Name::lit("tail"), data: Data::Text { n: 40, seed: 3 }, src: Src::exact() }, WOp::Finalize];
+            let mut case = Case::new("C06", cfg, ops);
+            case.params.insert("mode".into(), if run % 3 == 0 { M_REV } else { M_FWD });
+            case.params.insert("plan_seed".into(), 9);
+            return case;
+        }
         let mode = if run == 0 { M_SAMPLE } else { *rng.pick(&[M_FWD, M_FWD, M_FWD, M_REV, M_REV, M_GCM]) };
         let variant = if mode == M_GCM || mode == M_SAMPLE {
             "prod"
@@ -188,7 +203,7 @@ impl Prop for C06 {
                             }
                         }
                         let inter = d.index.entries.iter().any(|e| e.offsets.len() > 2);
-                        ctx.sig(format!("fwd|{}|{}|ch{}|bl{}|i{}|r{}|f{}", case.cfg.variant, case.cfg.layer_name(), d.chunks.len().min(5), d.comp.as_ref().map(|c| c.blocks.len().min(4)).unwrap_or(0), inter, case.cfg.recipients, d.files.len().min(3)));
+                        ctx.sig(format!("fwd|{}|{}|ch{}|bl{}|i{}|r{}|f{}", case.cfg.variant, case.cfg.layer_name(), if d.chunks.len() > 65536 { 65537 } else if d.chunks.len() > 256 { 257 } else { d.chunks.len().min(5) }, d.comp.as_ref().map(|c| c.blocks.len().min(4)).unwrap_or(0), inter, case.cfg.recipients, d.files.len().min(3)));
                     }
                 }
             }
@@ -300,7 +315,7 @@ impl Prop for C06 {
                             model.order.push(n.clone());
                             model.files.insert(n.clone(), b.clone());
                         }
-                        let rcfg = ReadCfg { keys: vec![hex::encode(kb)], sched: Sched::Full, budget: u64::MAX / 2, error_at_read: None, spill_path: None };
+                        let rcfg = ReadCfg { keys: vec![hex::encode(kb)], sched: Sched::Full, budget: u64::MAX / 2, error_at_read: None, spill_path: None, explicit_auth_mode: false };
                         v.extend(check_readback(s, &Rc::new(img), &rcfg, &model, 4096, ctx, "sample"));
                         ctx.sig(format!("sample|files{}|blocks{}", d.files.len(), d.comp.as_ref().map(|c| c.blocks.len()).unwrap_or(0)));
                         ctx.probe_n("sample-files", d.files.len() as u64);
